@@ -75,5 +75,3 @@ pub broadcast axiom fn axiom_key_model_depot_idx()
 pub broadcast axiom fn axiom_key_model_vehicle_idx()
     ensures #[trigger] vstd::std_specs::hash::obeys_key_model::<VehicleIdx>();
 }
-broadcast use {key_axioms::axiom_key_model_node_idx, key_axioms::axiom_key_model_location_idx, key_axioms::axiom_key_model_vehicle_type_idx,
-    key_axioms::axiom_key_model_depot_idx, key_axioms::axiom_key_model_vehicle_idx};
